@@ -115,6 +115,25 @@ def handle (line : String) : String :=
                                  Nd := Nd }
         pure (toString L.wf)
       else none
+    | "glistwf" =>
+      let (nG, c) ← c.nat?
+      let (G, c) ← c.rats? (3 * nG)
+      let (nu, c) ← c.nats? nG
+      let nu ← allFin? nG nu
+      if !c.atEnd then none
+      if h : nu.size = nG then
+        pure (toString (gListWf (nG := nG) (fun g => toV3 G (3 * g.1)) (fun g => nu[g.1]'(by omega))))
+      else none
+    | "glist" =>
+      -- rec(9) cell(9) cutoffSq r : the list for radius r, preceded by the two modelled radii
+      let (rec, c) ← c.rats? 9
+      let (cell, c) ← c.rats? 9
+      let (cut, c) ← c.rat?
+      let (r, c) ← c.nat?
+      if !c.atEnd then none
+      let l := gList (toT3 rec 0) cut r
+      pure (s!"{minGRad (toT3 rec 0) cut 100} {safeGRad (toT3 cell 0) cut 100} {l.length} " ++
+        " ".intercalate (l.map fun n => s!"{n.1} {n.2.1} {n.2.2}"))
     | "nacvec" =>
       let (qc, c) ← c.rats? 3
       let (hd, c) ← c.nat?
